@@ -54,10 +54,27 @@ class Dim(AbsValue):
             return DimProduct(self, other)
         raise Unsupported("arithmetic on abstract dimension")
 
+    def _sym(self, I):
+        """the dimension as an integer unknown (>= 1, or exactly 0): orderings against it fork the path"""
+        m = z3.Int("dim_" + self.name)
+        if not getattr(self, "_declared", None) is I.ctx:
+            I.ctx.assume(m == 0 if self.zero else m >= 1, None)
+            self._declared = I.ctx
+        return m
+
     def abs_compare(self, I, op, other):
-        if isinstance(other, int):
+        if isinstance(other, int) and not isinstance(other, bool):
             if op is ast.Gt and other == 0:
                 return not self.zero
+            m = self._sym(I)
+            return {ast.Lt: m < other, ast.LtE: m <= other, ast.Gt: m > other, ast.GtE: m >= other}[op]
+        raise Unsupported("ordering on abstract dimension")
+
+    def abs_rcompare(self, I, op, other):
+        # other <op> self
+        if isinstance(other, int) and not isinstance(other, bool):
+            m = self._sym(I)
+            return {ast.Lt: other < m, ast.LtE: other <= m, ast.Gt: other > m, ast.GtE: other >= m}[op]
         raise Unsupported("ordering on abstract dimension")
 
     def abs_truthy(self, I, label):
